@@ -4,8 +4,10 @@ from concurrent.futures import ProcessPoolExecutor
 from . import specgen, emit, build, engine, cases, static as ST, sut as SUT, spec as S, plans
 
 VERIF = build.VERIF
-EVID = os.path.join(VERIF, 'evidence')
-REPLAYS_NEW = os.path.join(VERIF, 'replays', 'new')
+# the two overrides exist for sensitivity runs against scratch trees (seeded defects, the pinned tree): those runs must not
+# replace the evidence of the registered checks
+EVID = os.environ.get('VERIF_EVIDENCE_DIR', os.path.join(VERIF, 'evidence'))
+REPLAYS_NEW = os.environ.get('VERIF_REPLAYS_NEW', os.path.join(VERIF, 'replays', 'new'))
 KNOWN = os.path.join(VERIF, 'KNOWN_FINDINGS.txt')
 
 
@@ -221,6 +223,24 @@ def run_check(prop, tier):
                 out_lines.append('VIOLATION property=%s replay=%s' % (prop, p))
                 out_lines.append('  ' + msgs3[0])
                 rc = 1
+    # directed cases on curated specs (shapes a generator cannot reach, e.g. counter boundaries)
+    directed_n = 0
+    for (spec_name, lines) in plan.get('directed', []):
+        sp = curated_specs([spec_name])[0]
+        for cfg in configs_for(sp, plan['configs']):
+            for line in lines:
+                case = cases.parse_line(line)
+                directed_n += 1
+                msgs, sig = replay_failure(prop, plan, sp, cfg, case, times=1)
+                if msgs[0] is None or sig in known_sigs:
+                    continue
+                msgs3, sig3 = replay_failure(prop, plan, sp, cfg, case, times=3)
+                if all(m is not None for m in msgs3):
+                    p = save_replay(prop, sp, cfg, dict(case=case, msg=msgs3[0], sig=sig3))
+                    out_lines.append('VIOLATION property=%s replay=%s' % (prop, p))
+                    out_lines.append('  cfg=%s directed case %s: %s' % (build.CONFIGS[cfg], line, msgs3[0]))
+                    rc = 1
+                    confirmed += 1
     for job, f in violations:
         if f.get('abstract'):
             # crash while running an abstract case: no concrete case to replay
@@ -259,7 +279,7 @@ def run_check(prop, tier):
                             curated=plan.get('curated', []),
                             configurations=sorted({build.CONFIGS[j['cfg']] for j in jobs}),
                             binaries=len(jobs), configs_not_compiling=[dict(spec=f['spec'], cfg=build.CONFIGS[f['cfg']]) for f in failed_builds],
-                            classes=classes, regression_replays=reg_total, known_findings=[k['sig'] for k in known],
+                            classes=classes, regression_replays=reg_total, directed_cases=directed_n, known_findings=[k['sig'] for k in known],
                             harness_errors=errors[:10], engine='hypothesis %s (seeded, database=None)' % __import__('hypothesis').__version__,
                             examples_per_binary=plan['examples'][0 if tier == 'quick' else 1], **post_cov),
               assumptions=plan.get('assumptions', []), wall_s=round(time.time() - t0, 2), violations=confirmed + reg_fail)
@@ -383,6 +403,8 @@ def c14_run(prop, tier, seed):
             todo.append((sp, 1 * 10 + cfg, emit_fe.emit_basic(sp), cfg, ()))
             todo.append((sp, 2 * 10 + cfg, emit_fe.emit_puml(sp, 0), cfg, ('-std=gnu++20',)))
             todo.append((sp, 3 * 10 + cfg, emit_fe.emit_puml(sp, 1 + (seed % 3)), cfg, ('-std=gnu++20',)))
+            if cfg <= 4:
+                todo.append((sp, 4 * 10 + cfg, emit_fe.emit_euml(sp), cfg, ()))       # backmp11 dropped eUML
     for sp in specsB:
         for cfg in (1, 5):
             todo.append((sp, 0 * 10 + cfg, emit.emit_cpp(sp), cfg, ()))
@@ -441,7 +463,7 @@ def c14_run(prop, tier, seed):
         corpus = os.path.join(fz_dir, 'corpus_%d_%s' % (seed, tier))
         shutil.rmtree(corpus, ignore_errors=True)
         os.makedirs(corpus)
-        art = os.path.join(VERIF, 'replays', 'new')
+        art = REPLAYS_NEW
         os.makedirs(art, exist_ok=True)
         runs = 40000 if quick else 3000000
         nproc = 1 if quick else 8
@@ -535,7 +557,7 @@ def c14_run(prop, tier, seed):
                                                        groups=len(jobs), classes=classes, not_compiling=failed[:10]),
                             tokenizer_fuzz=dict(tok, engine='libFuzzer -seed=%d, ASan+UBSan, oracle in target' % seed),
                             guard_parser=dict(expressions=gtotal, nontrivial=gnt, valuations_each=32),
-                            not_covered='eUML front-end (BOOST_MSM_EUML_TRANSITION_TABLE) is not emitted by this revision', harness_errors=errors[:6]),
+                            harness_errors=errors[:6]),
               assumptions=plan.get('assumptions', []), wall_s=round(time.time() - t0, 2), violations=violations)
     os.makedirs(EVID, exist_ok=True)
     json.dump(ev, open(os.path.join(EVID, prop + '.json'), 'w'), indent=1, default=str)
@@ -578,7 +600,7 @@ def c20_run(prop, tier, seed):
     quick = tier == 'quick'
     fz_dir = os.path.join(build.BUILD, 'c20b_' + build.tree_hash()[:16])
     os.makedirs(fz_dir, exist_ok=True)
-    art = os.path.join(VERIF, 'replays', 'new')
+    art = REPLAYS_NEW
     os.makedirs(art, exist_ok=True)
     targets = [('poly', 'poly_fuzz.cpp', [], 'POLY_FUZZ_STATS')]
     for c in (1, 3, 4, 5, 7):
